@@ -28,6 +28,15 @@ func vNewExactDay(name string, years ...int) vExactDay {
 	return e
 }
 
+// vNewExactDayIn: as vNewExactDay with the month fixed by the caller (so that cases can be spread
+// over worker processes).
+func vNewExactDayIn(name string, mi int, years ...int) vExactDay {
+	y := years[VsChoose(name+".year", len(years))]
+	e := vExactDay{y: y, m: vC20Months[mi].m, d: VsInt(name+".d", 1, 28)}
+	e.text = VsDecimal(e.d, 1) + " " + vC20Months[mi].word + " " + VsDecimal(e.y, 4)
+	return e
+}
+
 func (e vExactDay) dayNo() int { return VDayNo(e.y, e.m, e.d) }
 
 func vIndi(ptr, name, sex string, events ...string) string {
@@ -244,9 +253,9 @@ func VerifC20_Spouses(cs int) {
 // VerifC20_EventOrder: baptism, death and burial dates (exact days, day symbolic) in every order
 // relative to each other, with a birth that is fine, missing or unparsable: one wrong-order warning
 // for each pair of events that is recorded in the wrong order, whatever else is wrong with the record.
-// cs%3: birth (valid and earliest, missing, unparsable).
+// cs%3: birth (valid and earliest, missing, unparsable); cs/3%3 and cs/9%3: months of baptism and death.
 func VerifC20_EventOrder(cs int) {
-	bapt, death, buri := vNewExactDay("baptism", 1850), vNewExactDay("death", 1850, 1851), vNewExactDay("burial", 1850)
+	bapt, death, buri := vNewExactDayIn("baptism", cs/3%3, 1850), vNewExactDayIn("death", cs/9%3, 1850, 1851), vNewExactDay("burial", 1850)
 	VsAssume(bapt.dayNo() != death.dayNo())
 	VsAssume(bapt.dayNo() != buri.dayNo())
 	VsAssume(death.dayNo() != buri.dayNo())
